@@ -47,25 +47,28 @@ fn enumerate(ctx: &Ctx, stream: &str, idx: u64, family: &str, describe: J, scena
     let n = plan.calls();
     let trace = plan.trace.lock().unwrap().clone();
     ctx.max("max_component_calls_in_a_scenario", n);
-    for (c, o, s) in &trace {
+    for (c, o, s, _) in &trace {
         ctx.tag("component_call_x_public_call", &format!("{}.{} during {}", c, o, s));
     }
+    ctx.max("max_component_calls_within_one_public_call", trace.iter().map(|t| t.3 as u64).max().unwrap_or(0));
     // 2. which k to run
     let ks: Vec<u64> = if (n as usize) <= cap {
         (1..=n).collect()
     } else {
-        // first and last occurrence of every (component.op, public call) class, then random
+        // first and last occurrence of every (component.op, public call, ordinal of the component
+        // call within that public call) class, then random: rare deep paths (the 5th read of one
+        // move_on_next, the reload of an upper index level) are thereby always selected
         let mut chosen = std::collections::BTreeSet::new();
-        let mut first: std::collections::BTreeMap<(String, &str, String), (u64, u64)> = Default::default();
+        let mut first: std::collections::BTreeMap<(String, &str, String, u32), (u64, u64)> = Default::default();
         for (i, t) in trace.iter().enumerate() {
-            let e = first.entry((t.0.clone(), t.1, t.2.clone())).or_insert((i as u64 + 1, i as u64 + 1));
+            let e = first.entry((t.0.clone(), t.1, t.2.clone(), t.3.min(40))).or_insert((i as u64 + 1, i as u64 + 1));
             e.1 = i as u64 + 1;
         }
         for (_, (a, b)) in first {
             chosen.insert(a);
             chosen.insert(b);
         }
-        while chosen.len() < cap {
+        while chosen.len() < cap.min(n as usize) {
             chosen.insert(rng.range(1, n as usize) as u64);
         }
         chosen.into_iter().collect()
@@ -152,6 +155,10 @@ fn writer_scenario<'a>(cfg: &'a WCfg, entries: &'a [Entry], use_finish: bool) ->
 }
 
 fn reader_scenario<'a>(bytes: Arc<Vec<u8>>, entries: &'a [Entry], seed: u64) -> Box<Scenario<'a>> {
+    // keys that open a data block (from the independent decoder): bounds and prefixes aimed at
+    // them make iterators step across block edges on their very first move
+    let block_firsts: Vec<Vec<u8>> = crate::decoder::decode(&bytes, None).map(|df| df.data_block_first_entry().into_iter().skip(1).filter_map(|i| entries.get(i).map(|e| e.0.clone())).collect()).unwrap_or_default();
+    let full_scan = seed % 3 == 0;
     Box::new(move |plan: Arc<Plan>| {
         let mut rng = Rng::new(seed);
         let src = MonSource::new("source", bytes.clone(), SplitState::full(), Some(plan.clone()));
@@ -174,7 +181,8 @@ fn reader_scenario<'a>(bytes: Arc<Vec<u8>>, entries: &'a [Entry], seed: u64) -> 
             };
         }
         op!("ReaderCursor::move_on_first", c.move_on_first());
-        for _ in 0..rng.range(1, 30) {
+        let steps = if full_scan { entries.len() + 1 } else { rng.range(1, 30) };
+        for _ in 0..steps {
             op!("ReaderCursor::move_on_next", c.move_on_next());
         }
         let q = pick(&mut rng);
@@ -184,7 +192,8 @@ fn reader_scenario<'a>(bytes: Arc<Vec<u8>>, entries: &'a [Entry], seed: u64) -> 
         let q = pick(&mut rng);
         op!("ReaderCursor::move_on_key_equal_to", c.move_on_key_equal_to(&q));
         op!("ReaderCursor::move_on_last", c.move_on_last());
-        for _ in 0..rng.range(1, 30) {
+        let steps = if full_scan { entries.len() + 1 } else { rng.range(1, 30) };
+        for _ in 0..steps {
             op!("ReaderCursor::move_on_prev", c.move_on_prev());
         }
         c.reset();
@@ -209,7 +218,29 @@ fn reader_scenario<'a>(bytes: Arc<Vec<u8>>, entries: &'a [Entry], seed: u64) -> 
                 break;
             }
         }
-        let prefix: Vec<u8> = a.iter().take(a.len().min(2)).copied().collect();
+        // a prefix whose successor is the first key of a data block (reverse iteration must step
+        // back over the bound into the previous block), else a short prefix of a stored key
+        let prefix: Vec<u8> = match block_firsts.get(rng.below(block_firsts.len().max(1))) {
+            Some(k) if !k.is_empty() && k[k.len() - 1] > 0 && rng.chance(2, 3) => {
+                let mut p = k.clone();
+                let l = p.len() - 1;
+                p[l] -= 1;
+                p
+            }
+            _ => a.iter().take(a.len().min(2)).copied().collect(),
+        };
+        // ranges whose excluded bounds sit on block edges
+        if let Some(k) = block_firsts.get(rng.below(block_firsts.len().max(1))) {
+            let src = MonSource::new("source", bytes.clone(), SplitState::full(), Some(plan.clone()));
+            let r = call("Reader::new", || Reader::new(src).map_err(|e| classify_plain("Reader::new", e)))?;
+            let mut it = call("Reader::into_rev_range_iter", || r.into_rev_range_iter((Bound::<Vec<u8>>::Unbounded, Bound::Excluded(k.clone()))).map_err(|e| classify_plain("Reader::into_rev_range_iter", e)))?;
+            for _ in 0..3 {
+                let more = call("RevRangeIter::next", || it.next().map(|o| o.is_some()).map_err(|e| classify_plain("RevRangeIter::next", e)))?;
+                if !more {
+                    break;
+                }
+            }
+        }
         let src = MonSource::new("source", bytes.clone(), SplitState::full(), Some(plan.clone()));
         let r = call("Reader::new", || Reader::new(src).map_err(|e| classify_plain("Reader::new", e)))?;
         let mut it = call("Reader::into_prefix_iter", || r.into_prefix_iter(prefix.clone()).map_err(|e| classify_plain("Reader::into_prefix_iter", e)))?;
@@ -300,6 +331,18 @@ pub fn run(ctx: &Ctx) -> i32 {
         let sc = reader_scenario(Arc::new(bytes), &entries, rng.next_u64());
         enumerate(ctx, "reader", idx, "reader", J::obj().set("config", cfg.render()).set("n_entries", entries.len()), &*sc, &kinds, cap, rng);
     });
+    // readers over deep files (index_levels 3-4, several blocks at the deep index levels), full
+    // forward and backward scans: every reload of an upper index level is a fault point
+    let n = ctx.n(12, 120);
+    ctx.par("deep-reader", n, true, |idx, rng| {
+        let levels = *rng.pick(&[3u8, 3, 4]);
+        let cnt = rng.range(50, 110);
+        let (entries, mut cfg) = gen::gen_deep_case(rng, levels, cnt);
+        cfg.codec = grenad::CompressionType::None;
+        let Ok(bytes) = gen::build_file(&cfg, &entries) else { return };
+        let sc = reader_scenario(Arc::new(bytes), &entries, 3 * rng.below(1000) as u64);
+        enumerate(ctx, "deep-reader", idx, "reader (deep index, full scans)", J::obj().set("config", cfg.render()).set("n_entries", entries.len()), &*sc, &kinds, cap * 2, rng);
+    });
     // mergers
     let n = ctx.n(40, 400);
     ctx.par("merger", n, true, |idx, rng| {
@@ -325,7 +368,7 @@ pub fn run(ctx: &Ctx) -> i32 {
         scfg.budget = *rng.pick(&[512usize, 1024, 4096]);
         scfg.initial = if scfg.allow_realloc { Some(*rng.pick(&[16usize, 256, scfg.budget])) } else { None };
         scfg.max_nb_chunks = *rng.pick(&[1usize, 2, 3]);
-        let kind = *rng.pick(&[MergeKind::Concat, MergeKind::Last, MergeKind::Sum]);
+        let kind = *rng.pick(&[MergeKind::Concat, MergeKind::Last, MergeKind::Sum, MergeKind::KeyedMinMax]);
         let uni = *rng.pick(&[3usize, 40]);
         let plan = gen_inserts_capped(rng, rng.clone().range(10, 400), uni, 30, false, None, scfg.budget * 6);
         let out_cfg = gen::gen_cfg(rng, true);
